@@ -26,6 +26,9 @@ def main(tier, replay, t0):
         x = c.cfgs[0]
         g = c.gen[x["id"]]
         if g.get("result") != "ok":
+            v = probes.refusal_violation(c, x, "push constant range")
+            if v and c.truth["push"]:
+                viol.append(v)
             continue
         base = {"case_id": c.id, "wgsl": c.wgsl, "options": x["opt"]}
         p = c.truth["push"]
